@@ -128,7 +128,15 @@ func c16Workload(g *rand.Rand, port int, dur time.Duration) int {
 		time.Sleep(3 * time.Millisecond)
 		return [][]string{{[]string{"FLUSHDB", "FLUSHALL"}[r.Intn(2)]}}
 	}
-	fns := []func(c *Conn, r *rand.Rand) [][]string{data, data, data, intro, intro, sel, tx, tx, blocker, blocker, feeder, flusher}
+	// databases that come into existence while the saver walks the set of databases
+	selmany := func(c *Conn, r *rand.Rand) [][]string {
+		return [][]string{{"SELECT", fmt.Sprint(r.Intn(16))}, {"SET", "ka", "m"}, {"SWAPDB", "0", "0"}}[:2]
+	}
+	// a key watched in one database, EXEC issued from another while others write the watched key
+	xwatch := func(c *Conn, r *rand.Rand) [][]string {
+		return [][]string{{"SELECT", "1"}, {"WATCH", "ka", "kl"}, {"SELECT", "0"}, {"MULTI"}, {"INCR", "cnt"}, {"EXEC"}, {"SELECT", "2"}, {"WATCH", "ka"}, {"SELECT", "1"}, {"CLIENT", "LIST"}, {"UNWATCH"}}
+	}
+	fns := []func(c *Conn, r *rand.Rand) [][]string{data, data, data, intro, intro, sel, tx, tx, blocker, blocker, feeder, flusher, selmany, xwatch, sel}
 	for i, f := range fns {
 		wg.Add(1)
 		go worker(i, f, i%3 == 0)
@@ -167,7 +175,23 @@ func runC16(cfg runCfg, res *Result) error {
 			os.RemoveAll(dir)
 			return err
 		}
+		// the saver pass, much more often than its one-second ticker
+		saverStop := make(chan struct{})
+		saverDone := make(chan struct{})
+		go func() {
+			defer close(saverDone)
+			for {
+				select {
+				case <-saverStop:
+					return
+				case <-time.After(7 * time.Millisecond):
+					srv.Ctl("SAVE 0", 5*time.Second)
+				}
+			}
+		}()
 		n := c16Workload(g, srv.Port, dur)
+		close(saverStop)
+		<-saverDone
 		res.Steps += n
 		res.Histories++
 		// a second emulator in the same process, start/stop while the first is busy
@@ -198,7 +222,7 @@ func runC16(cfg runCfg, res *Result) error {
 		sites = append(sites, s)
 	}
 	sort.Strings(sites)
-	res.Samples = append(res.Samples, fmt.Sprintf("12 concurrent connections for %v: data commands x introspection x SELECT/FLUSH x MULTI/EXEC x blocking commands x reconnects, saver running, a second emulator started and closed", dur))
+	res.Samples = append(res.Samples, fmt.Sprintf("15 concurrent connections for %v: data commands x introspection x SELECT (16 databases)/FLUSH x MULTI/EXEC (also with keys watched in another database) x blocking commands x reconnects, saver pass every 7 ms, a second emulator started and closed", dur))
 	for _, s := range sites {
 		m := &Mismatch{Index: -1, Op: "data race", Why: "the race detector reports unsynchronised accesses at " + s}
 		known := false
